@@ -1,6 +1,7 @@
 package eng
 
 import (
+	"context"
 	"database/sql"
 	"encoding/hex"
 	"encoding/json"
@@ -49,6 +50,9 @@ type rangeCase struct {
 	// LeaseTimeBefore: the lease_time plugin (with this value) is placed before range in the chain, as in
 	// the shipped example configuration; range still decides the lease it promises and stores
 	LeaseTimeBefore string `json:"lease_time_before,omitempty"`
+	// LockFaultAt > 0: before that request another connection takes the database's write lock, a bound client
+	// renews (the plugin's write times out), the lock is released. Bindings must be unaffected.
+	LockFaultAt int `json:"lock_fault_at,omitempty"`
 }
 
 type rangeEngine struct{}
@@ -136,6 +140,9 @@ func (rangeEngine) Gen(rng *rand.Rand, tier string, i int) any {
 		if c.Reqs > 20 {
 			c.Reqs = 20
 		}
+	}
+	if i%16 == 7 {
+		c.LockFaultAt = 2 + rng.Intn(6)
 	}
 	if i%5 == 3 {
 		c.LeaseTimeBefore = []string{"3600s", "24h", "30s", "86400s"}[rng.Intn(4)]
@@ -268,6 +275,9 @@ func (rangeEngine) Run(ctx *fw.Ctx, cs any) {
 			r.lease, _ = time.ParseDuration(newLease)
 			r.s = newSrv4(r.chain(h), loIface())
 			restarted = true
+		}
+		if c.LockFaultAt == i && used > 0 {
+			r.lockFault(c.Clients[r.rng.Intn(used)])
 		}
 		// choose a client: new one (fills the pool) or a known one
 		var cl rangeClient
@@ -621,4 +631,38 @@ func (r *rangeRun) chain(h handler.Handler4) []handler.Handler4 {
 	}
 	r.ctx.Count("range.chains_with_lease_time_first", 1)
 	return []handler.Handler4{lt, h}
+}
+
+// lockFault: a renewal while the lease database cannot be written (another connection holds the write
+// lock until the plugin's busy timeout has passed). The client must still be served its address, and
+// nobody's binding may change because of it.
+func (r *rangeRun) lockFault(cl rangeClient) {
+	mac, _ := hex.DecodeString(cl.Mac)
+	key := clientKey(mac)
+	if _, ok := r.m.Bind[key]; !ok {
+		return
+	}
+	db, err := sql.Open("sqlite3", "file:"+r.db)
+	if err != nil {
+		return
+	}
+	defer db.Close()
+	conn, err := db.Conn(context.Background())
+	if err != nil {
+		return
+	}
+	defer conn.Close()
+	if _, err := conn.ExecContext(context.Background(), "BEGIN IMMEDIATE"); err != nil {
+		return
+	}
+	r.tr("another connection takes the write lock of the lease database")
+	rep, _, _ := one4(r.s, r.request(cl, 3))
+	conn.ExecContext(context.Background(), "ROLLBACK")
+	r.tr("REQUEST %s while the database is write-locked -> %s; lock released", key, repStr(rep))
+	r.ctx.Count("range.lock_faults", 1)
+	if sig, msg := r.m.Judge(key, rep != nil, yi(rep)); sig != "" {
+		r.ctx.Viol("C02", sig, "while the lease database was write-locked: %s\n  last: %v", msg, r.trace)
+	}
+	// the write of the new expiry failed: the stored expiry is the previous promise until the next renewal
+	delete(r.promise, key)
 }
